@@ -226,6 +226,7 @@ def r2_r3(ctx) -> None:
     # full_plugin_name yields a dotted name
     fpn = ctx.fn(BASE, "full_plugin_name")
     rets = lib.nodes(fpn, ast.Return)
+    ctx.sites('C19-R2', "sites iterated at rules/c19.py:229 (rets)", len(rets), 1)
     for r in rets:
         dotted = isinstance(r.value, ast.JoinedStr) and any(
             isinstance(v, ast.Constant) and "." in v.value for v in r.value.values) and "__module__" in norm(r.value)
